@@ -110,8 +110,11 @@ def build_class(decl):
         ns[f["att"]] = Field(**kw)
     ns["__annotations__"] = ann
     add = {"none": None, "any": True, "int": int, "forbid": False}[decl["addition"]]
-    if add is not None:
-        ns["__options__"] = Options(addition=add)
+    okw = {} if add is None else {"addition": add}
+    if decl.get("collect"):
+        okw["collect_errors"] = True        # changes how a parse reports its errors; an assignment still has to refuse a bad value
+    if okw:
+        ns["__options__"] = Options(**okw)
     base = Schema if decl["base"] == "Schema" else DataClass
     return type(decl["name"], (base,), ns)
 
@@ -417,8 +420,10 @@ def main():
                 for _ in range(int(10000 * scale)):
                     seq = [(1, rng.choice(ops)) for _ in range(3)]
                     record(decl, cls, inp, seq, "ex3s")
-        # long random walks over the TLC alphabet, with a copy somewhere
-        for _ in range(int((3000 if thorough else 200) * scale)):
+        # long random walks over the TLC alphabet, with a copy somewhere; every other one on the class declared with collect_errors=True
+        decl_c = dict(decl, collect=True)
+        cls_c = build_class(decl_c)
+        for wi in range(int((3000 if thorough else 200) * scale)):
             inp = rng.choice(inputs)
             seq = []
             copied = False
@@ -428,12 +433,16 @@ def main():
                     copied = True
                 else:
                     seq.append((2 if copied and rng.random() < 0.4 else 1, rng.choice(ops)))
-            record(decl, cls, inp, seq, "walk")
+            if wi % 2:
+                record(decl_c, cls_c, inp, seq, "walk+collect")
+            else:
+                record(decl, cls, inp, seq, "walk")
     # random class variants, wider value pool
     concretise = concretise_any
     try:
         for n in range(int((1500 if thorough else 100) * scale)):
             decl = random_decl(rng, n)
+            decl["collect"] = bool(n % 2)
             try:
                 cls = build_class(decl)
             except Exception as e:
